@@ -64,7 +64,8 @@ fn decode_rt(class: &str, tape: &[u8]) -> RtCase {
     };
     let mut cfg = GenCfg::canonical(policy);
     let tree = if class == "depthchain" {
-        let d = t.range(1, 40) as u32;
+        // half of the chains sit on the boundary 31..=34, the others anywhere in 1..=40
+        let d = if t.chance(128) { 31 + t.below(4) as u32 } else { t.range(1, 40) as u32 };
         cfg.max_depth = 40;
         let mut g = Gen::new(&mut t, cfg);
         g.depth_chain(d)
